@@ -16,6 +16,8 @@ impl LocalKey {
         use digest::Mac;
 
         let (ek, n2) = kdf(&self.0, 0x80, nonce).split();
+        #[cfg(paseto_verif)]
+        let n2 = paseto_core::verif::iv16("k1.pie", n2.into()).into();
         let ak = kdf(&self.0, 0x81, nonce);
 
         let cipher = ctr::Ctr64BE::<aes::Aes256>::new(&ek, &n2);
